@@ -25,8 +25,9 @@ LEVEL = "exploration"
 RULE = (
     "Cells = (analytic model, algorithmic configuration) of the standard and "
     "the importance sampler; each cell is run with S Hypothesis-drawn seeds "
-    "(quick: 10 cells x 20 seeds, rotating through the matrix with "
-    "VERIF_SEED; thorough: all 24 cells x 100 seeds). evaluations = completed "
+    "(quick: 32 of the 33 cells, 20 seeds for 10 of them - rotating through the "
+    "matrix with VERIF_SEED - and 12 for the others; thorough: 100 seeds "
+    "each); two cells are killed once and resumed. evaluations = completed "
     "runs. Non-trivial cell: at least 80% of its runs completed and were "
     "judged; distinct by cell name."
 )
@@ -44,7 +45,7 @@ ASSUMPTIONS = [
     "approximation, 6.5 standard errors + 1% of the posterior standard "
     "deviation (finite-sample bias of self-normalised weights)",
     "decisions use fixed thresholds: a defect that moves the mean of log Z by "
-    "less than ~0.4 (quick) / ~0.12 (thorough) passes",
+    "less than ~0.5 (20 seeds) / ~1.3 (12 seeds) / ~0.12 (thorough) passes unless it moves the posterior moments or the insertion indices",
 ]
 
 STD_BASE = {
@@ -107,11 +108,20 @@ CELLS = [
     ("std/uniform-nsphere", G2, False, {"latent_prior": "uniform_nsphere"}),
     ("std/gaussian-latent", G2, False, {"latent_prior": "gaussian",
                                         "constant_volume_mode": False}),
+    # runs that are killed once (between two iterations of flow sampling /
+    # at the third level) and resumed from their last checkpoint
+    ("std/resumed", G2, False,
+     {"checkpointing": True, "checkpoint_on_iteration": True,
+      "checkpoint_interval": 1},
+     [{"event": "population", "k": 1}, {"event": "iteration", "k": 260}]),
+    ("ins/resumed", G2, True,
+     {"checkpointing": True, "checkpoint_interval": 1},
+     [{"event": "level", "k": 5}]),
 ]
 
 
 def cell_job(cell, seed):
-    name, model, ins, extra = cell
+    name, model, ins, extra = cell[:4]
     kw = dict(INS_BASE if ins else STD_BASE)
     kw.update(extra)
     kw["seed"] = int(seed)
@@ -231,48 +241,66 @@ def judge_cell(ctx, cell, seeds, reps, out, n_tests):
                    key=jhash(name), n=max(1, n))
 
 
-def run_cells(ctx, cells, S, tag):
+def cell_history(cell, seed):
+    job = cell_job(cell, seed)
+    kills = cell[4] if len(cell) > 4 else []
+    steps = [dict(job, kill_event=k) for k in kills] + [job]
+    return {"steps": steps, "until_completed": True}
+
+
+def run_cells(ctx, cells, S, tag, S_of=None):
+    """S seeds per cell (S_of: cell name -> its own number of seeds)."""
     out = Outcome()
-    seeds = configs.collect(st.integers(1, 2**31 - 1), ctx.seed, S,
+    S_of = S_of or {}
+    s_max = max([S] + list(S_of.values()))
+    seeds = configs.collect(st.integers(1, 2**31 - 1), ctx.seed, s_max,
                             key=lambda v: v)
     hist = []
     for cell in cells:
-        for s in seeds:
-            hist.append(runs.single(cell_job(cell, s)))
+        for s in seeds[:S_of.get(cell[0], S)]:
+            hist.append(cell_history(cell, s))
     res = runs.run_histories(tag, hist)
     n_tests = 8 * len(cells)
     k = 0
     for cell in cells:
-        reps = [r[0] for r in res[k:k + S]]
-        k += S
-        judge_cell(ctx, cell, seeds, reps, out, n_tests)
+        n = S_of.get(cell[0], S)
+        reps = [r[-1] for r in res[k:k + n]]
+        resumed = sum(1 for r in res[k:k + n] if len(r) > 1)
+        k += n
+        if len(cell) > 4:
+            out.stats.classes["resumed-runs"] += resumed
+        judge_cell(ctx, cell, seeds[:n], reps, out, n_tests)
     return out
 
 
 def run(ctx):
     if ctx.quick:
-        # rotate through the matrix with the seed; always keep the cells
-        # that guard repaired defects
+        # every cell of the matrix in every run: 20 seeds for the cells that
+        # guard repaired defects and for a fifth of the others (rotating with
+        # VERIF_SEED), 12 seeds for the rest (the thresholds follow the
+        # number of seeds of each cell)
         keep = {"std/default", "std/no-uninformed", "ins/default",
                 "std/augmented", "ins/n-initial"}
         rest = [c for c in CELLS if c[0] not in keep]
         k = ctx.seed % 5
-        cells = [c for c in CELLS if c[0] in keep] + [
-            c for i, c in enumerate(rest) if i % 5 == k]
-        return run_cells(ctx, cells, 20, "c06")
+        S_of = {c[0]: 20 for c in CELLS if c[0] in keep}
+        S_of.update({c[0]: 20 for i, c in enumerate(rest) if i % 5 == k})
+        # (the accumulate-weights cell needs minutes per run: thorough only)
+        cells = [c for c in CELLS if c[0] != "std/accumulate-weights"]
+        return run_cells(ctx, cells, 12, "c06", S_of)
     return run_cells(ctx, CELLS, 100, "c06")
 
 
 def health(ctx, stats):
     judged = stats.classes.get("nontrivial", 0)
-    need = 8 if ctx.quick else 22
+    need = 28 if ctx.quick else 30
     return [] if judged >= need else [f"only {judged} cells judged"]
 
 
 def replay(ctx, case):
     cell = [c for c in CELLS if c[0] == case["cell"]][0]
     out = Outcome()
-    hist = [runs.single(cell_job(cell, s)) for s in case["seeds"]]
+    hist = [cell_history(cell, s) for s in case["seeds"]]
     res = runs.run_histories("c06r", hist)
-    judge_cell(ctx, cell, case["seeds"], [r[0] for r in res], out, 8)
+    judge_cell(ctx, cell, case["seeds"], [r[-1] for r in res], out, 8)
     return out
